@@ -1,5 +1,8 @@
 #include "sortedpipeline.h"
 
+#include <algorithm>
+#include <iterator>
+
 namespace QtLogger {
 
 QTLOGGER_DECL_SPEC
@@ -7,15 +10,19 @@ void SortedPipeline::insertBetweenNearLeft(const QSet<HandlerType> &leftType,
                                            const QSet<HandlerType> &rightType,
                                            const HandlerPtr &handler)
 {
+    // First handler of a "right" class
     auto firstRight =
             std::find_if(handlers().begin(), handlers().end(),
                          [&rightType](const auto &x) { return rightType.contains(x->type()); });
 
-    auto lastLeft = std::find_if(firstRight, handlers().begin(), [&leftType](const HandlerPtr &x) {
-        return leftType.contains(x->type());
-    });
+    // Last handler of a "left" class in front of it (searching backwards); base() is the
+    // position right after that handler, or begin() when there is none
+    auto lastLeft = std::find_if(std::make_reverse_iterator(firstRight), handlers().rend(),
+                                 [&leftType](const HandlerPtr &x) {
+                                     return leftType.contains(x->type());
+                                 });
 
-    handlers().insert(lastLeft, handler);
+    handlers().insert(lastLeft.base(), handler);
 }
 
 QTLOGGER_DECL_SPEC
@@ -23,11 +30,14 @@ void SortedPipeline::insertBetweenNearRight(const QSet<HandlerType> &leftType,
                                             const QSet<HandlerType> &rightType,
                                             const HandlerPtr &handler)
 {
+    // Last handler of a "left" class (searching backwards); base() is the position right
+    // after that handler, or begin() when there is none
     auto lastLeft =
-            std::find_if(handlers().end(), handlers().begin(),
+            std::find_if(handlers().rbegin(), handlers().rend(),
                          [&leftType](const HandlerPtr &x) { return leftType.contains(x->type()); });
 
-    auto firstRight = std::find_if(lastLeft, handlers().end(), [&rightType](const auto &x) {
+    // First handler of a "right" class behind it
+    auto firstRight = std::find_if(lastLeft.base(), handlers().end(), [&rightType](const auto &x) {
         return rightType.contains(x->type());
     });
 
@@ -59,7 +69,8 @@ void SortedPipeline::appendAttrHandler(const AttrHandlerPtr &attrHandler)
         return;
 
     insertBetweenNearLeft({ HandlerType::AttrHandler },
-                          { HandlerType::Filter, HandlerType::Formatter, HandlerType::Sink },
+                          { HandlerType::Filter, HandlerType::Formatter, HandlerType::Sink,
+                            HandlerType::Pipeline },
                           attrHandler);
 }
 
@@ -76,7 +87,8 @@ void SortedPipeline::appendFilter(const FilterPtr &filter)
         return;
 
     insertBetweenNearLeft({ HandlerType::AttrHandler, HandlerType::Filter },
-                          { HandlerType::Formatter, HandlerType::Sink }, filter);
+                          { HandlerType::Formatter, HandlerType::Sink, HandlerType::Pipeline },
+                          filter);
 }
 
 QTLOGGER_DECL_SPEC
@@ -93,8 +105,8 @@ void SortedPipeline::setFormatter(const FormatterPtr &formatter)
 
     clearFormatters();
 
-    insertBetweenNearRight({ HandlerType::AttrHandler, HandlerType::Filter }, { HandlerType::Sink },
-                           formatter);
+    insertBetweenNearRight({ HandlerType::AttrHandler, HandlerType::Filter },
+                           { HandlerType::Sink, HandlerType::Pipeline }, formatter);
 }
 
 QTLOGGER_DECL_SPEC
@@ -106,7 +118,12 @@ void SortedPipeline::clearFormatters()
 QTLOGGER_DECL_SPEC
 void SortedPipeline::appendSink(const SinkPtr &sink)
 {
-    append(sink);
+    if (sink.isNull())
+        return;
+
+    insertBetweenNearLeft({ HandlerType::AttrHandler, HandlerType::Filter, HandlerType::Formatter,
+                            HandlerType::Sink },
+                          { HandlerType::Pipeline }, sink);
 }
 
 QTLOGGER_DECL_SPEC
